@@ -532,8 +532,8 @@ impl Check for C06 {
             real: &["all of h3 (client, server, connection, frame, stream, buf, proto, qpack)"],
             stub: &["QUIC transport (SimQuic)", "executor (simexec)", "peer (adversarial script)", "applications (documented call patterns, drawn behaviour after an error)"],
             assumptions: &["transport contract: non-empty chunks, valid stream ids", "which error is returned is not judged here (C02-C04, C07)"],
-            quick_runs: 150_000,
-            thorough_runs: 8_000_000,
+            quick_runs: 1_500_000,
+            thorough_runs: 60_000_000,
         }
     }
     fn run(&self, ctx: &RunCtx) -> RunOut {
